@@ -1,7 +1,7 @@
 (* Extraction of the executable model for the correspondence runner.
    Directives: exactly those of ExtrOcamlBasic; N, Z, positive and nat stay
    Coq datatypes. *)
-From KC Require Import Base Filter Cache Lister Watcher Controller FilterSub Pipeline Monitor CacheActor Lifecycle Typed Join PubTerm RootHop.
+From KC Require Import Base Filter Cache Lister Watcher Controller FilterSub Pipeline Monitor CacheActor Lifecycle Typed Join PubTerm RootHop NSName.
 Require Import ExtrOcamlBasic.
 Extraction Language OCaml.
 Extraction "model.ml"
@@ -13,4 +13,4 @@ Extraction "model.ml"
   do_sync_raw do_update do_list do_get replay create_entry
   trace_ok watch_outcome relist_outcome krun kinit
   fs_init fs_step nested_view view
-  expected_suffix monitor_log_ok lin_ok done_after_close typed_list join_view prun_view busy_burst_outcome urun tinit unitary_log burst.
+  expected_suffix monitor_log_ok lin_ok done_after_close typed_list join_view prun_view busy_burst_outcome urun tinit unitary_log burst ns_parse ns_string.
